@@ -219,7 +219,8 @@ def availNode (g : Cfg) (visited : List Nat) (i : Nat) : Cfg × Bool × Bool :=
     let r3 := rulePullValueFromCsrMemory n r2 cn.memOut        -- reads the *old* memory_values_out
     let r4 := zeroConsts r3 inReg
     let m4 := zeroConsts mem0 inMem
-    let r5 := rulePerformMathOps n r4 inReg
+    -- x0 cannot be written: no rule's result for a destination x0 is kept
+    let r5 := AMap.erase (rulePerformMathOps n r4 inReg) 0
     let m5 := rulePushValueToCsrMemory n m4 r5
     let m6 := ruleForgetOverwritten cnIn (ruleKnownValuesToStack m5 inReg)
     let c3 := !(AMap.sameAs cn.regOut r5)
